@@ -68,19 +68,20 @@ func (prop) Info() fw.Info {
 		},
 		CaseTimeout: 120,
 		CountFloors: map[string]int{
-			"diagrams":              600,
-			"arrows_checked":        1000,
-			"calls_checked":         1000,
-			"deps_checked":          500,
-			"views_pt_cycle":        5,
-			"views_pt_chain":        10,
-			"views_excluded_caller": 10,
-			"views_self_call":       10,
-			"views_hidden_call":     5,
-			"views_human_target":    5,
-			"clusters_read":         10,
+			"diagrams":                600,
+			"arrows_checked":          1000,
+			"calls_checked":           1000,
+			"deps_checked":            500,
+			"views_pt_cycle":          5,
+			"views_pt_chain":          10,
+			"views_excluded_caller":   10,
+			"views_self_call":         10,
+			"views_hidden_call":       5,
+			"views_human_target":      5,
+			"clusters_read":           10,
+			"passthrough_arrows_seen": 20,
 		},
-		SetFloors: map[string]int{"shapes": 17},
+		SetFloors: map[string]int{"shapes": 21},
 	}
 }
 
@@ -288,6 +289,11 @@ func judge(res *fw.Result, ch string, vw *view, rf *reference, arrows []pair, ar
 		}
 		drawn[a] = true
 		res.Count("arrows_checked", 1)
+		if ch == "deps" && has(vw.passthrough, a.a) && !rf.listed[a.a] && rf.ptWalk {
+			// evidence only: the pass-through walk (or the later connect pass) produced arrows
+			// that leave a pass-through application nobody listed
+			res.Count("passthrough_arrows_seen", 1)
+		}
 		// SOUNDNESS: a call statement from the source to the target application exists ...
 		if rf.n[a] == 0 {
 			res.Violate("unsound|"+ch+"|no-call", fmt.Sprintf("%s [%s]: arrow %s --> %s, but no call statement from %s to %s exists anywhere in the model", vw.name, ch, a.a, a.b, a.a, a.b), art)
@@ -307,19 +313,48 @@ func judge(res *fw.Result, ch string, vw *view, rf *reference, arrows []pair, ar
 		ps = append(ps, p)
 	}
 	sort.Slice(ps, func(i, j int) bool { return ps[i].a+"\x00"+ps[i].b < ps[j].a+"\x00"+ps[j].b })
+	exonerated := map[string]bool{}
+	for _, p := range ps {
+		if drawn[p] {
+			for _, k := range commonKinds(rf.must[p]) {
+				exonerated[k] = true
+			}
+		}
+	}
 	for _, p := range ps {
 		res.Count("calls_checked", len(rf.must[p]))
 		if drawn[p] {
 			continue
 		}
-		res.Violate("incomplete|"+ch+"|"+nestClass(rf.must[p]), fmt.Sprintf("%s [%s]: %d call statement(s) from listed application %s to %s (not excluded, not hidden, not human), e.g. %s.%s -> %s.%s nested in %v, but no arrow %s --> %s",
-			vw.name, ch, len(rf.must[p]), p.a, p.b, p.a, rf.must[p][0].srcEp, p.b, rf.must[p][0].tgtEp, rf.must[p][0].under, p.a, p.b), art)
+		res.Violate("incomplete|"+ch+"|"+nestClass(rf.must[p], exonerated), fmt.Sprintf("%s [%s]: %d call statement(s) from listed application %s to %s (not excluded, not hidden, not human), e.g. %s.%s -> %s.%s nested in %v (kinds enclosing all of them: %v), but no arrow %s --> %s",
+			vw.name, ch, len(rf.must[p]), p.a, p.b, p.a, rf.must[p][0].srcEp, p.b, rf.must[p][0].tgtEp, rf.must[p][0].under, commonKinds(rf.must[p]), p.a, p.b), art)
 	}
 }
 
-// nestClass names what all the undrawn calls have in common: "all-under-<kind>" when
-// every supporting call statement is nested in that statement kind, else "any-position".
-func nestClass(cl []*call) string {
+// nestClass names what the undrawn calls of one pair have in common. I = the statement
+// kinds that enclose EVERY supporting call statement. Empty: "top-level" (some call is
+// not nested at all). Kinds that also enclose every supporting call of a pair that WAS
+// drawn in the same diagram are exonerated; if exactly one kind is left the class is
+// "nested-in-<kind>", otherwise "nested".
+func nestClass(cl []*call, exonerated map[string]bool) string {
+	var left []string
+	common := commonKinds(cl)
+	if len(common) == 0 {
+		return "top-level"
+	}
+	for _, k := range common {
+		if !exonerated[k] {
+			left = append(left, k)
+		}
+	}
+	if len(left) == 1 {
+		return "nested-in-" + left[0]
+	}
+	return "nested"
+}
+
+func commonKinds(cl []*call) []string {
+	var out []string
 	for _, k := range blockKinds {
 		all := true
 		for _, c := range cl {
@@ -329,10 +364,10 @@ func nestClass(cl []*call) string {
 			}
 		}
 		if all {
-			return "all-under-" + k
+			out = append(out, k)
 		}
 	}
-	return "any-position"
+	return out
 }
 
 func problemClass(p string) string {
